@@ -1,4 +1,5 @@
 import Pathrs.Proofs.Runs
+import Pathrs.Proofs.KProc
 
 /-!
 # C06 — procfs calls return only genuine procfs objects
@@ -8,6 +9,10 @@ be returned*, not on a name: whatever the environment does (mounts appearing or
 disappearing at any moment, any answers at all), a descriptor returned by a
 procfs lookup passed, as the last thing that happened, `fstatfs(fd) =
 PROC_SUPER_MAGIC`, after `statx(fd, "")` reported the mount id of the handle.
+
+On `PWorld` (a procfs tree whose objects carry mount ids: an over-mounted entry leads to the root of the other
+mount) the same is a statement about objects: `C06_spec_same_mount` — the confined lookup only ever returns an object
+on the mount it started on — and `C06_emulated_same_mount` — so does the emulated resolver, whatever is mounted wherever.
 -/
 
 open K Procfs
@@ -229,3 +234,17 @@ theorem C06_base_verified (env : Env) (hd : ProcH) (base : Base) (h h' : Hist) (
 
 example : mntOf (.nums [0x5000, 77]) = some 77 := by decide
 example : mntOf (.err ENOSYS) = none := rfl
+
+/-! ### on a procfs tree with mounts: only objects of the handle's own mount -/
+
+open KProc PWorld in
+theorem C06_spec_same_mount {w : PWorld} (c : PCfg) (path : Bytes) (r : Fd) (h : resolveBeneath w c path = .ok r) :
+    w.mnt r = w.mnt w.base :=
+  resolveBeneath_same_mnt c path r h
+
+open KProc PWorld in
+theorem C06_emulated_same_mount {w : PWorld} (hw : PWF w) (path : Bytes) (hp : path ≠ [])
+    (hdd : Path.dotdot ∉ Path.rawComponents path) (oflags rflags : Nat) (hfl : FlagsOk oflags) (r : Fd)
+    (h : Prog.prun w (Procfs.opathResolve w.base path oflags rflags) = .ok r) : w.mnt r = w.mnt w.base :=
+  opathResolve_same_mnt hw path hp hdd oflags rflags hfl r h
+
